@@ -3,6 +3,8 @@ package sim
 import (
 	"encoding/json"
 	"fmt"
+	"io"
+	"log"
 	"os"
 	"testing"
 )
@@ -27,6 +29,7 @@ func TestWorker(t *testing.T) {
 		os.Exit(2)
 	}
 	job.Race = RaceBuild
+	log.SetOutput(io.Discard) // log.Fatal, turned into log.Panic by the restricted stdlib, also prints
 	res := RunWorker(t, &job)
 	out, _ := json.Marshal(res)
 	if err := os.WriteFile(job.Out, out, 0o644); err != nil {
